@@ -1,3 +1,107 @@
-Require Import Codec.
-Theorem placeholder : True. Proof. exact I. Qed.
-Print Assumptions placeholder.
+(* C06 - a read depends only on bytes and arguments, never on earlier reads or callers; results share no
+   mutable state.  Only statements, closed by [exact], each followed by Print Assumptions. *)
+From Coq Require Import ZArith NArith List Bool.
+Require Import ListN Result Bytes Prog Codec PoseRead PoseReadLemmas StreamLemmas C06_Heap C06_HeapProofs CodecGenTie.
+Import ListNotations.
+Open Scope N_scope.
+
+(* Value level: for ANY byte string and arguments, under every consistent memo, Pose.read returns what it
+   returns with an empty memo; hence along any history of reads (the memo threaded through) every result is the
+   stateless one. *)
+Theorem C06_memo_never_changes_a_read :
+  forall legacy m buffer a, MemoOK m -> fst (read_bytes legacy m buffer a) = fst (read_bytes legacy None buffer a).
+Proof. exact read_bytes_memo_independent. Qed.
+Print Assumptions C06_memo_never_changes_a_read.
+Theorem C06_history_of_reads :
+  forall legacy ops m, MemoOK m ->
+    run_reads legacy m ops = map (fun ba => fst (read_bytes legacy None (fst ba) (snd ba))) ops.
+Proof. exact history_independent_values. Qed.
+Print Assumptions C06_history_of_reads.
+
+(* Object level (heap of header objects; callers mutate only what they hold): after ANY sequence of reads,
+   in-place edits of earlier results and copies, a read returns - as a value, its header object dereferenced in
+   the resulting heap - exactly the fresh-process result. *)
+Theorem C06_read_history_independent :
+  forall legacy ops buffer a,
+    let s := run_h legacy hinit ops in
+    pose_of (snd (read_h legacy s buffer a)) (fst (read_h legacy s buffer a)) = fst (read_bytes legacy None buffer a).
+Proof. exact read_history_independent. Qed.
+Print Assumptions C06_read_history_independent.
+(* ... the objects handed to callers are pairwise distinct and never the memo's object; *)
+Theorem C06_no_sharing :
+  forall legacy ops, let s := run_h legacy hinit ops in
+    NoDup (handed s) /\ (forall c, hmem s = Some c -> ~ In (hm_addr c) (handed s)).
+Proof. exact no_sharing. Qed.
+Print Assumptions C06_no_sharing.
+(* ... a read hands out a new object; *)
+Theorem C06_read_result_is_fresh :
+  forall legacy s buffer a ad b, HInv s -> fst (read_h legacy s buffer a) = Ok (ad, b) ->
+    ~ In ad (handed s) /\ In ad (handed (snd (read_h legacy s buffer a))) /\
+    (forall c, hmem (snd (read_h legacy s buffer a)) = Some c -> hm_addr c <> ad).
+Proof. exact read_h_fresh. Qed.
+Print Assumptions C06_read_result_is_fresh.
+(* ... an in-place edit changes the edited object only; *)
+Theorem C06_mutation_is_local :
+  forall legacy s k f ad other, HInv s -> nth_error (handed s) k = Some ad -> other <> ad ->
+    deref (fst (step_h legacy s (HMutate k f))) other dummy_header = deref s other dummy_header.
+Proof. exact mutate_changes_only_its_object. Qed.
+Print Assumptions C06_mutation_is_local.
+(* ... and copy() yields a new object with an equal header, leaving every other object as it was. *)
+Theorem C06_copy_is_disjoint :
+  forall legacy s k ad, HInv s -> nth_error (handed s) k = Some ad ->
+    let s' := fst (step_h legacy s (HCopy k)) in
+    exists ad', handed s' = handed s ++ [ad'] /\ ~ In ad' (handed s) /\ ad' <> ad /\
+                deref s' ad' dummy_header = deref s ad dummy_header /\
+                (forall x, In x (handed s) -> deref s' x dummy_header = deref s x dummy_header).
+Proof. exact copy_is_a_new_equal_object. Qed.
+Print Assumptions C06_copy_is_disjoint.
+Theorem C06_invariant_reachable :
+  forall legacy ops, HInv (run_h legacy hinit ops).
+Proof. exact (fun legacy ops => hinv_run legacy ops hinit hinv_init). Qed.
+Print Assumptions C06_invariant_reachable.
+
+(* streams (partial: the windowed clause covers reads whose bytes result is Ok and v0.2 bodies) *)
+Theorem C06_stream_windowed_partial :
+  forall legacy m q a pose, MemoOK m -> any_arg a = true ->
+    (forall h r, run_plain rd_header {| pbuf := q; poff := 0 |} = Ok (h, r) -> v2prog (read_body legacy h a)) ->
+    fst (read_bytes legacy None q a) = Ok pose ->
+    fst (fst (read_stream legacy m q a)) = Ok pose.
+Proof. exact stream_read_memo_independent. Qed.
+Print Assumptions C06_stream_windowed_partial.
+Theorem C06_stream_full :
+  forall legacy m q a, MemoOK m -> any_arg a = false ->
+    fst (fst (read_stream legacy m q a)) = fst (read_bytes legacy None q a).
+Proof. exact stream_read_noargs_memo_independent. Qed.
+Print Assumptions C06_stream_full.
+
+(* non-vacuity: read, rename the result's component, copy it, read again: the second read is not renamed *)
+Theorem C06_example_history :
+  let s := run_h no_legacy hinit ex_history in
+  handed s = [0; 2; 3]%nat /\ length (heap s) = 4%nat /\
+  deref s 0%nat dummy_header <> deref s 3%nat dummy_header /\
+  exists c, hmem s = Some c /\ hm_addr c = 1%nat.
+Proof. exact ex_history_runs. Qed.
+Print Assumptions C06_example_history.
+
+(* ties: the deep copies the model relies on are in the source *)
+Theorem C06_tie_header_read : Gen_Codec.header_read = exp_header_read.
+Proof. exact header_read_tie. Qed.
+Print Assumptions C06_tie_header_read.
+Theorem C06_tie_set_cache : Gen_Codec.cache_set_cache = exp_cache_set_cache.
+Proof. exact cache_set_cache_tie. Qed.
+Print Assumptions C06_tie_set_cache.
+Theorem C06_tie_check_cache : Gen_Codec.cache_check_cache = exp_cache_check_cache.
+Proof. exact cache_check_cache_tie. Qed.
+Print Assumptions C06_tie_check_cache.
+Theorem C06_tie_calc_hash : Gen_Codec.cache_calc_hash = exp_cache_calc_hash.
+Proof. exact cache_calc_hash_tie. Qed.
+Print Assumptions C06_tie_calc_hash.
+Theorem C06_tie_pose_copy : Gen_Codec.pose_copy = exp_pose_copy.
+Proof. exact pose_copy_tie. Qed.
+Print Assumptions C06_tie_pose_copy.
+Theorem C06_tie_numpy_body_copy : Gen_Codec.numpy_body_copy = exp_numpy_body_copy.
+Proof. exact numpy_body_copy_tie. Qed.
+Print Assumptions C06_tie_numpy_body_copy.
+Theorem C06_tie_pose_read : Gen_Codec.pose_read = exp_pose_read.
+Proof. exact pose_read_tie. Qed.
+Print Assumptions C06_tie_pose_read.
